@@ -385,8 +385,13 @@ def judge(drv, item, obs, ref):
     if (why.startswith("unreadable") or why == "objects-missing") and _wrote_every_line(after["text"], ref["problem"]):
         # the writer put every line of every object into the file, blocks delimited, nothing after the terminator:
         # what cannot be read back is the text the formatters produced (C01/C09/C10's mechanisms, not the writer's)
-        mods = [l for f in ref["problem"]["modifiers"] for l in f.get("lines", [])]
-        site = "modifier-card-with-comment" if any("$" in l or l.lower().startswith("c ") for l in mods) else "other"
+        site = "other"
+        for f in ref["problem"]["data"] + ref["problem"]["modifiers"]:
+            card = [l for l in f.get("lines", []) if l.strip()]
+            # an IMP card of the data block that carries a comment: Importance appends values behind the comment text
+            first = next((l for l in card if not l.lower().startswith("c ")), "")
+            if first.lower().lstrip().startswith("imp") and any("$" in l or l.lower().startswith("c ") for l in card):
+                site = "importance-card-with-comment"
         return {"mechanism": "format", "class": "unreadable-output", "site": site, "fault": fk, "dest": before["k"]}
     if obs["result"] is None:
         return dict(base, **{"class": "incomplete-on-success", "why": why.split(":")[0]})
@@ -850,11 +855,15 @@ def _reference_safe(spec):
 
 def replay(chk, payload):
     case = payload.get("case") or payload  # a replay written by the check, or a corpus file
+    chk.rule = "replay of one stored case"
     if payload.get("verdict") == "no-failing-input-found":
-        case = payload["no_longer_checks"][0]["case"]
+        cases = [b["case"] for b in payload["no_longer_checks"] if b.get("case")]
+        if not cases:  # only theorems were listed: the replay is the proof itself
+            leanio.prove(chk, "MontePyVerif.Props.C15", THEOREMS, NAMESPACE)
+            return
+        case = cases[0]
     if case is None or "spec" not in case:
         raise MachineryError("replay file has no case")
-    chk.rule = "replay of one stored case"
     drv = leanio.Driver(chk, "drv_c15")
     if not drv.ok:
         return
